@@ -30,6 +30,9 @@ Items ==
   { [k |-> "text", s |-> t] : t \in Texts }
   \cup { [k |-> "dq", s |-> c] : c \in {x \in Contents : DQOK(x)} }
   \cup { [k |-> "bq", s |-> c] : c \in {x \in Contents : BQOK(x)} }
+  \* comment tags: their text is not code -- a #, a quote, a back quote, a brace or a keyword in it hides nothing
+  \cup { [k |-> "cmt", s |-> c] : c \in { <<"s", "e", "e", " ", "HASH", "1", "2">>, <<"s", "a", "y", " ", "QUOT", "h", "i">>, <<"i", "t", "APOS", "s", " ", "BQ", "x">>,
+                                          <<"LBR", " ", "i", "f", " ", "(">>, <<"NL", "HASH", " ", "x", "NL">>, <<"PCT", " ", "RBR", " ", "<">> } }
   \cup { [k |-> o, s |-> <<>>] : o \in {"num", "var", "silentexpr", "silentstr", "let", "assign", "silentif", "silentfor", "comment", "silentraw", "silentcall", "fnout", "silentfn",
                                        "escopen", "bslemit", "false", "zero", "emptystr", "nilv", "arrvar", "arrpair", "twoblk", "nestblk", "blkloop"} }
 
@@ -47,6 +50,7 @@ ItemStmts(it) ==
     [] it.k = "silentif"   -> <<Code(If(Bool(TRUE), <<Text(<<"I">>), Emit(IntL(1))>>))>>
     [] it.k = "silentfor"  -> <<Code(For("", "v", Arr(<<IntL(1), IntL(2)>>), <<Text(<<"F">>), Emit(Id("v"))>>))>>
     [] it.k = "comment"    -> <<Cmt(<<"n", "o", "t", "e">>)>>
+    [] it.k = "cmt"        -> <<Cmt(it.s)>>
     [] it.k = "silentraw"  -> <<Code(Call("raw", <<Str(<<"<", "b", ">">>)>>))>>
     [] it.k = "silentcall" -> <<Code(Call("id", <<Str(<<"x">>)>>))>>
     \* a template function whose return is reached inside an if of its body: emitted / called silently
